@@ -17,12 +17,13 @@ from vf.util import ddiff, digest, short
 LEVEL = "exploration"
 NEEDS_CORPUS = True
 WORKERS = {"quick": 8, "thorough": 16}
-RULE = ("cases = scripts s1;...;sn: (1) the full predecessor x successor matrix over %d supported statement kinds (every lexer "
+RULE = (("cases = scripts s1;...;sn: (1) the full predecessor x successor matrix over %d supported statement kinds (every lexer "
         "flag is set by some predecessor: LIKE, CHECK, SEQUENCE, ALTER, <...> types, dialect tails) with one unsupported or ignored "
         "statement inserted at a seeded gap (thorough: every gap); (2) seeded random sequences of 2..8 groups whose ALTER/INDEX "
         "followers are scattered after their head, unsupported statements from 9 families inserted at random gaps; (3) 2..5 "
         "regression-corpus scripts concatenated in random order. Non-trivial = the script has >= 2 supported groups; distinct = "
-        "distinct script text." % len(G.SUPPORTED))
+        "distinct script text."
+        " Added after seeded defects: the same table name produced twice with ALTER/INDEX in between, the very same statement text repeated, statements the lexer rejects (known finding unless anything but that exception happens), unterminated ignored lines, stray-semicolon statements.") % len(G.SUPPORTED))
 ASSUMPTIONS = ["every statement ends with ';' at the end of a line (the property's premise)",
                "corpus scripts are used as whole units; concatenations in which two scripts define the same table are skipped",
                "GO / USE / INSERT / GRANT / DELETE lines are the documented ignored-line family (skipped in both modes)"]
@@ -149,8 +150,7 @@ def corpus_cases(ctx, n):
 def run_shard(ctx):
     try:
         from simple_ddl_parser.parser import Parser
-        contracts.post(Parser, "process_statement", _stmt_contract, "statement_buffer"
-        " Added after seeded defects: the same table name produced twice with ALTER/INDEX in between, the very same statement text repeated, statements the lexer rejects (known finding unless anything but that exception happens), unterminated ignored lines, stray-semicolon statements.")
+        contracts.post(Parser, "process_statement", _stmt_contract, "statement_buffer")
     except Exception as e:
         STATE.unattached.append("contract statement_buffer: %r" % (e,))
     rng = ctx.rng
